@@ -8,19 +8,38 @@ import jdflimits as J
 LIM = {"in": 10, "out": 10, "flows": 20, "locals": 20}
 
 
+def keep_ldefs(acc, dep):
+    """local definitions only where the generator's family can carry them: both targets of the dependency
+    are tasks (CTL flows, outputs of READ flows), the guard is binary or ternary (an unguarded dependency
+    with a bracket is ambiguous for the grammar), and the false-branch call exists"""
+    if len(dep) < 5:
+        return tuple(dep[:2])
+    d, g, l, ct, cf = dep
+    if g == "u" or not (acc == "C" or (acc == "R" and d == "o")):
+        return (d, g)
+    if g != "t":
+        cf = 0
+    return (d, g, l, ct, cf) if (l or ct or cf) else (d, g)
+
+
+def slots(dep):
+    l, ct, cf = J.ldefs(dep)
+    return l + max(ct, cf)
+
+
 def normalise(prog):
     """make the drawn structure a valid JDF of the generator's family (see tools/jdflimits.py)"""
     out = []
     for (nloc, flows) in prog:
         fl2 = []
         for (acc, deps) in flows:
-            deps = list(deps)
+            deps = [keep_ldefs(acc, dep) for dep in deps]
             if acc == "W":
                 # a WRITE flow has outputs only; a ternary would need a task target with a matching input flow
-                deps = [(d, ("b" if g == "t" else g)) for (d, g) in deps if d == "o"] or [("o", "u")]
+                deps = [(d[0], ("b" if d[1] == "t" else d[1])) for d in deps if d[0] == "o"] or [("o", "u")]
             if acc in ("R", "RW") and not any(d[0] == "i" for d in deps):
                 deps = [("i", "u")] + deps
-            if acc in ("R", "RW") and any(d == ("i", "t") for d in deps) and not any(d[0] == "o" for d in deps):
+            if acc in ("R", "RW") and any(d[:2] == ("i", "t") for d in deps) and not any(d[0] == "o" for d in deps):
                 deps = deps + [("o", "u")]
             if acc == "C" and not deps:
                 deps = [("i", "b"), ("o", "b")]
@@ -78,6 +97,24 @@ class C24(Check):
                 deps.append((r.pick(["i", "o"]), r.pick(["u", "b", "t"])))
         return (acc, deps)
 
+    def ldef_flow(self, r, want):
+        """a flow one of whose OUTPUT dependencies needs [want] local-definition slots, at a random position
+        among its dependencies (the compiler must count the dependency that needs most, wherever it is)"""
+        acc = r.pick(["C", "R"])
+        g = r.pick(["b", "t"])
+        l = r.range(0, want)
+        rest = want - l
+        big = ("o", g, l, rest, 0) if g == "b" else r.pick([("o", g, l, rest, r.range(0, rest)), ("o", g, l, r.range(0, rest), rest)])
+        others = []
+        for _ in range(r.range(0, 3)):
+            w = r.range(0, max(0, want - 1))
+            others.append(r.pick([("o", "b", w, 0, 0), ("o", "u"), ("o", "b"), ("o", "t", 0, w, 0)]))
+        pos = r.range(0, len(others))
+        deps = [("i", "u")] + others[:pos] + [big] + others[pos:]
+        if r.chance(1, 2):
+            deps.append(("o", "u"))          # the needy dependency is then never the last one
+        return (acc, deps)
+
     def cases(self):
         r = self.rng
         out = []
@@ -86,6 +123,15 @@ class C24(Check):
         base = [(1, [("R", [("i", "b"), ("i", "u")]), ("RW", [("i", "u"), ("o", "b")])])]
         for mal in ("syntax", "paren", "unbound", "unbound-guard", "unbound-arg", "unbound-then", "unbound-else"):
             out.append(J.case_text(normalise(base), mal))
+        # local definitions ("[ i = a .. b ]") on a dependency that is not the last one of its flow: a small valid
+        # program, and programs at / one over the locals limit because of the slots such a dependency needs
+        out.append(J.case_text(normalise([(0, [("R", [("i", "u"), ("o", "b", 1, 0, 0), ("o", "u")])])])))
+        out.append(J.case_text(normalise([(0, [("C", [("i", "u"), ("o", "t", 1, 1, 2), ("o", "b")]), ("R", [("i", "u")])])])))
+        for total in (20, 21):
+            out.append(J.case_text(normalise([(total - 4, [("R", [("i", "u"), ("o", "b", 2, 1, 0), ("o", "b", 1, 0, 0), ("o", "u")])])])))
+            out.append(J.case_text(normalise([(total - 3, [("C", [("i", "u"), ("o", "t", 0, 1, 2), ("o", "u")]), ("R", [("i", "u"), ("o", "u")])])])))
+        # known finding: a CTL gather (input) dependency with local definitions at both levels
+        out.append(J.case_text(normalise([(0, [("C", [("i", "b", 1, 1, 0), ("o", "u")])])])))
         for i in range(n):
             kind = r.below(10)
             mal = None
@@ -94,8 +140,19 @@ class C24(Check):
             elif kind == 4:      # flow-count limits
                 nf = r.pick([19, 20, 21, 22])
                 prog = [(0, [(r.pick(["R", "RW", "C", "W"]), []) for _ in range(nf)])]
-            elif kind == 5:      # locals limit (the parameter k counts)
-                prog = [(r.pick([18, 19, 20, 21]), [self.rand_flow(r, False)])]
+            elif kind == 5:      # locals limit (the parameter k counts); half of the time part of the locals are
+                                 # local-definition slots of a dependency
+                total = r.pick([19, 20, 21, 22])
+                if r.chance(1, 2):
+                    prog = [(total - 1, [self.rand_flow(r, False)])]
+                else:
+                    want = r.range(1, 4)
+                    fls = [self.ldef_flow(r, want)]
+                    if r.chance(1, 2):
+                        fls.insert(r.range(0, 1), self.rand_flow(r, False))
+                    prog = [(total - 1 - want, fls)]
+            elif kind == 8 and r.chance(1, 2):   # small valid programs with local definitions anywhere
+                prog = [(r.range(0, 3), [self.ldef_flow(r, r.range(1, 3)) for _ in range(r.range(1, 2))])]
             elif kind == 6:      # several classes, one over a limit
                 prog = [(r.range(0, 2), [self.rand_flow(r, False) for _ in range(r.range(1, 3))]) for _ in range(2)]
                 prog.append((0, [self.rand_flow(r, True)]))
@@ -114,11 +171,11 @@ class C24(Check):
         mal, prog = J.parse_case(case)
         m = []
         for (nloc, flows) in prog:
-            m.append(("locals", nloc + 1))
+            m.append(("locals", nloc + 1 + max([slots(dep) for (acc, deps) in flows for dep in deps] + [0])))
             m.append(("flows", len(flows)))
             for (acc, deps) in flows:
-                m.append(("in", sum((2 if g == "t" else 1) for (d, g) in deps if d == "i")))
-                m.append(("out", sum((2 if g == "t" else 1) for (d, g) in deps if d == "o")))
+                m.append(("in", sum((2 if dep[1] == "t" else 1) for dep in deps if dep[0] == "i")))
+                m.append(("out", sum((2 if dep[1] == "t" else 1) for dep in deps if dep[0] == "o")))
         return mal, m
 
     def nontrivial_key(self, case):
@@ -135,6 +192,7 @@ class C24(Check):
             d["at_limit"] += 1 if any(v == LIM[k] for (k, v) in m) else 0
             d["over_limit"] += 1 if any(v > LIM[k] for (k, v) in m) else 0
             d["ternary_heavy"] += 1 if c.count("t ") + c.count("t;") >= 5 else 0
+            d["local_definitions"] = d.get("local_definitions", 0) + (1 if re.search(r"[io][bt]\.\d", c) else 0)
         return d
 
     # ---- implementation side: the real ptgpp --------------------------------
@@ -209,12 +267,22 @@ class C24(Check):
             return "two runs of parsec-ptgpp on the same input produced different output"
         if acc and over:
             return "accepted (exit status 0, C compiled) although %d generated entries do not fit a runtime array" % over
+        if acc:
+            mal, cnt = self.counts(case)
+            worst = max([v for (k, v) in cnt if k == "locals"] + [0])
+            if worst > LIM["locals"]:
+                return ("accepted (exit status 0, C compiled) although a task class needs %d locals (named locals + "
+                        "local-definition slots), more than MAX_LOCAL_COUNT = %d" % (worst, LIM["locals"]))
         return None
 
     def signature(self, case, obs):
         if "det=0" in obs:
             return "nondeterministic"
         if "undiag=1" in obs:
+            mal, prog = J.parse_case(case)
+            if mal is None and any(acc == "C" and dep[0] == "i" and J.ldefs(dep)[0] and max(J.ldefs(dep)[1:])
+                                   for (nloc, flows) in prog for (acc, deps) in flows for dep in deps):
+                return "undiagnosed-ctl-gather-ldef-both-levels"
             return "undiagnosed-" + (case.split("|")[0].strip())
         mal, m = self.counts(case)
         worst = sorted(((v - LIM[k], k) for (k, v) in m), reverse=True)[0]
